@@ -551,6 +551,50 @@ func (m *c19) doSeek(b *brModel, target int64, whence int) *core.Violation {
 	return m.checkState(b, fmt.Sprintf("Seek(%d,%d)", off, whence))
 }
 
+// doSeekOutside issues a Seek whose target lies outside [0, size] or whose whence is
+// invalid. io.Seeker: a target before the start is an error; beyond the end either is
+// allowed. An erroring Seek must leave the position alone.
+func (m *c19) doSeekOutside(b *brModel, kind int, delta int64) *core.Violation {
+	var off int64
+	whence := m.ctx.T.Draw(3)
+	target := -1 - delta // before the start
+	switch kind {
+	case 1:
+		target = m.size + 1 + delta // beyond the end
+	case 2:
+		whence = 3 + m.ctx.T.Draw(3) // invalid whence
+		target = b.pos
+	}
+	switch whence {
+	case io.SeekStart:
+		off = target
+	case io.SeekCurrent:
+		off = target - b.pos
+	case io.SeekEnd:
+		off = target - m.size
+	default:
+		off = 0
+	}
+	got, err := b.r.Seek(off, whence)
+	m.ctx.L.Ev("SeekOutside", off, int64(whence), got)
+	m.ctx.Count("probe_seek_outside")
+	if err != nil {
+		return m.checkState(b, fmt.Sprintf("failed Seek(%d,%d)", off, whence)) // position unchanged
+	}
+	switch kind {
+	case 0:
+		return m.viol("seek-wrong", "Seek(%d, %d) from %d on %d bytes moves before the start (returned %d) without an error", off, whence, b.pos, m.size, got)
+	case 2:
+		return m.viol("seek-wrong", "Seek(%d, whence %d) returned no error for an invalid whence", off, whence)
+	}
+	// beyond the end and accepted: the position must be what was asked for; come back inside
+	if got != target || b.r.Pos() != target {
+		return m.viol("seek-wrong", "Seek(%d, %d) to %d (beyond the %d bytes) succeeded but reports position %d / Pos() %d", off, whence, target, m.size, got, b.r.Pos())
+	}
+	b.pos = target
+	return m.doSeek(b, m.size, io.SeekStart)
+}
+
 // ---------------------------------------------------------------- the run
 
 // RunC19 is one simulated execution for property C19.
@@ -703,7 +747,7 @@ func RunC19(ctx *core.Ctx) *core.Violation {
 			if t.Draw(stopN) == 0 {
 				break
 			}
-			op := t.Weighted(8, 3, 1, 2, 3, 3, 4, 1)
+			op := t.Weighted(8, 3, 1, 2, 3, 3, 4, 1, 1)
 			ctx.SigAdd(uint64(200 + op))
 			var v *core.Violation
 			switch op {
@@ -767,6 +811,11 @@ func RunC19(ctx *core.Ctx) *core.Violation {
 				if v = m.doSeek(cur, target, t.Draw(3)); v == nil {
 					v = m.doTyped(cur, kind)
 				}
+			case 8:
+				if !beSeekable(m.be) || cur.eof {
+					continue
+				}
+				v = m.doSeekOutside(cur, t.Draw(3), int64(t.Pick(0, 1, 7, 1<<40)))
 			case 7:
 				if !beSeekable(m.be) {
 					continue
